@@ -9,6 +9,7 @@ import SdModel.Model.UArr
 import SdModel.Model.UMap
 import SdModel.Model.RMap
 import Driver.Derive
+import SdModel.Lemmas.WireBridge
 import SdModel.Model.Cost
 
 open Sx
@@ -518,6 +519,19 @@ def structDec : List Sx → Sx
       | _ => tag "reject" []
     | _, _, _, _ => tag "bad-req" []
   | _ => tag "bad-req" []
+/-- `(dwire fmt ty (skip ..) (kind ..) a b)`: the DERIVE model's diff of (a, b), re-expressed in the wire model by
+`Derive.toWire` and encoded: the bytes the real encoder must produce (up to the order of hash-ordered change lists) -/
+def deriveWire : List Sx → Sx
+  | [f, ty, sk, .list ks, a, b] =>
+    match fmtOf f, DDerive.tyOf ty, flagsOf sk, ks.mapM kindOf, DDerive.valOf a, DDerive.valOf b with
+    | some f, some t, some sk, some ks, some a, some b =>
+      match Derive.toWire ((Derive.semTy t).diff a b), Derive.toWire ((Derive.semTy t).diffRef a b) with
+      | some w, some wr =>
+        let ws := widths sk ks
+        tag "ok" [tag "owned" [ofNats (Codec.encEntriesW f ws (fieldCdc f ks) w)], tag "ref" [ofNats (encRefEntries f ws ks wr)]]
+      | _, _ => tag "not-flat" []
+    | _, _, _, _, _, _ => tag "bad-req" []
+  | _ => tag "bad-req" []
 end DUn
 
 def dispatch (legacy : Bool) (x : Sx) : Sx :=
@@ -542,6 +556,7 @@ def dispatch (legacy : Bool) (x : Sx) : Sx :=
   | .list (.atom "mdec" :: rest) => DUn.wireDec true rest
   | .list (.atom "senc" :: rest) => DUn.structEnc rest
   | .list (.atom "sdec" :: rest) => DUn.structDec rest
+  | .list (.atom "dwire" :: rest) => DUn.deriveWire rest
   | _ => tag "bad-req" []
 
 partial def loop (legacy : Bool) (h : IO.FS.Stream) (out : IO.FS.Stream) : IO Unit := do
